@@ -128,7 +128,10 @@ func example[V any](g *Generator[V], t *T) (V, int, error) {
 }
 
 func recoverValue[V any](g *Generator[V], t *T) (v V, err *testError) {
-	defer func() { err = panicToError(recover(), 3) }()
+	finished := false
+	defer func() { err = panicToError(abnormalEnd(recover(), finished), 3) }()
 
-	return g.value(t), nil
+	v = g.value(t)
+	finished = true
+	return v, nil
 }
